@@ -204,7 +204,16 @@ pub fn expected_from_ref(item: &RefItem) -> Result<LItem, String> {
     match item {
         RefItem::Greeting(g) => expected_greeting(g),
         RefItem::Message(m) => Ok(LItem::Message(m.clone())),
-        RefItem::MalformedCommand(_) => Err("malformed-command".into()),
+        RefItem::MalformedCommand(body) => {
+            // the library looks at the command name first: a well-formed name other than READY
+            // is "unknown" whatever follows (e.g. ERROR, whose body is not a property list)
+            match body.first() {
+                Some(&n) if body.len() > n as usize && &body[1..1 + n as usize] != b"READY" => {
+                    Err("Unknown command received".into())
+                }
+                _ => Err("malformed-command".into()),
+            }
+        }
         RefItem::Command { name, props } => {
             if name != b"READY" {
                 return Err("Unknown command received".into());
